@@ -310,6 +310,18 @@ class TagList(UserList[TagNode]):
 
         return TagList(self, *item)
 
+    def __iadd__(self, item: Iterable[TagChild]) -> TagList:
+        """
+        Add the item to the end of this TagList (in place), normalizing it like
+        `__add__()` does.
+        """
+
+        if self._should_not_expand(item):
+            self.append(item)
+        else:
+            self.extend(item)
+        return self
+
     def __radd__(self, item: Iterable[TagChild]) -> TagList:
         """
         Return a new TagList with the item added to the beginning.
